@@ -14,14 +14,28 @@ class VersionStore(object):
     def __init__(self):
         self.v = {}
 
+    AMBIGUOUS = object()
+
     def put(self, disk, sub, data, mtime_ns):
-        self.v[(disk, sub, len(data), mtime_ns)] = data
+        key = (disk, sub, len(data), mtime_ns)
+        old = self.v.get(key)
+        if old is not None and old is not self.AMBIGUOUS and old != data:
+            # two different byte strings under one identity (e.g. a silently damaged twin moved over a file that has the same
+            # size and time-stamp): the tool cannot tell them apart and neither can the harness say which one "the" version is
+            self.v[key] = self.AMBIGUOUS
+            return
+        if old is self.AMBIGUOUS:
+            return
+        self.v[key] = data
 
     def get(self, disk, sub, size, mtime_sec, mtime_nsec):
         if mtime_nsec is not None and mtime_nsec >= 0:
-            return self.v.get((disk, sub, size, mtime_sec * 1000000000 + mtime_nsec))
+            r = self.v.get((disk, sub, size, mtime_sec * 1000000000 + mtime_nsec))
+            return None if r is self.AMBIGUOUS else r
         # nanoseconds not recorded: match on seconds
         cands = [d for (dk, s, sz, mt), d in self.v.items() if dk == disk and s == sub and sz == size and mt // 1000000000 == mtime_sec]
+        if any(c is self.AMBIGUOUS for c in cands):
+            return None
         if len(cands) >= 1 and all(c == cands[0] for c in cands):
             return cands[0]
         return None
